@@ -163,8 +163,7 @@ func checkC01(env *Env) []Violation {
 	dels := env.Deliveries()
 	var out []Violation
 	out = append(out, opPanics(ops, nil)...)
-	per, root := closeTimes(ops)
-	rootPtr := env.rootPtr()
+	ci := newCloseInfo(env, ops)
 	ps := env.passes()
 	env.Probes.OverlapPasses = overlapping(ps)
 
@@ -172,16 +171,19 @@ func checkC01(env *Env) []Violation {
 	hists := newLedgers()
 	for _, r := range ops {
 		mv, _ := r.Obj.(*metricVar)
-		if mv == nil || mv.scope.isNoop {
+		if mv == nil {
 			continue
 		}
-		cl := closeOf(mv.scope, per, root, rootPtr)
-		required := r.Ret != 0 && r.Ret < cl
+		ob := ci.obligation(mv, r)
 		switch r.Op.K {
 		case "inc":
-			counters.get(mv).add(r.Op.I, required)
+			if ob != forbidden {
+				counters.get(mv).add(r.Op.I, ob == required)
+			}
 		case "recv", "recd":
-			hists.get(mv).add(1, required)
+			if ob != forbidden {
+				hists.get(mv).add(1, ob == required)
+			}
 		case "counter":
 			counters.get(mv)
 		case "hist":
